@@ -306,7 +306,7 @@ def c04(v, tier, seed):
     # prior contents one bit away from an initialised header / canonical prefix followed by junk: "already initialised" short cuts
     gen_and_replay(v, wd, ex, bind, "C04", tier, rnd, "nearinit", ALL_VIEWS, 0, False, depth=1 if q else 2,
                    invs=["InitCanonical"], props=["FrameOK"])
-    traces(v, wd, ex, bind, "C04", rnd, 6000 if q else 600000, sorted(bind.views), ("init",), nshards=4 if q else 16, name="random-inits")
+    traces(v, wd, ex, bind, "C04", rnd, 6000 if q else 600000, [x_ for x_ in sorted(bind.views) if x_ in ALL_VIEWS], ("init",), nshards=4 if q else 16, name="random-inits")
     v.cov["rule"] = "every initialiser (current and legacy) x background images x exact/slack arenas, twice in a row (idempotence); random prior contents validated by PduTrace"
     v.cov["distinct_nontrivial"] = v.cov.get("replayed_transitions", 0)
 
@@ -766,8 +766,44 @@ def c14(v, tier, seed):
     # nor on the optimisation / ABI switches): the same transitions through each of them
     sub_n = random.Random(11).sample(nat, min(len(nat), 12000 if q else 60000))
     for_each_config(v, wd, lambda ex2, tag: hostx.raw_replay(v, ex2, sub_n, rnd, "native " + tag, places=[("E", 0)])["executed"])
-    # (2) the crossed build (big-endian helper set on little-endian memory) follows GenericImpl(LE, BE)
-    shape_sweep(v, wd, ex_x, "C14", rnd, q, "crossed", "LE", "BE")
+    # (2) the crossed build (big-endian helper set on little-endian memory) follows GenericImpl(LE, BE) - or, if the accessors are written
+    #     without the helpers (fields assembled from single bytes), the bit semantics itself.  A crossed build can only be predicted under
+    #     a model of how the code reaches multi-byte values; the model enumerates both styles, and ONE of them must fit every transition
+    def merge(vv):
+        for k_, d_, r_ in vv.violations: v.violation(k_, d_, r_)
+    def scratch():
+        return Verdict("C14", tier, seed, v.level)
+    def swaps_in_be_build():
+        """byte swapping reachable from library code compiled for a big-endian host (-O0, so nothing is folded or recognised as an idiom):
+        a big-endian host never needs to swap big-endian wire data.  Evidence against the helper-free styles: code that swaps
+        unconditionally gives the right bytes on little-endian memory whatever the configuration says."""
+        import subprocess
+        found = []
+        for src in lib_sources():
+            obj = os.path.join(wd, "be0_" + os.path.basename(src) + ".o")
+            r_ = subprocess.run(["gcc", "-O0", "-c", "-w", "-std=gnu99"] + [f_ for f_ in VARIANTS["be"][1] if f_.startswith("-D") or f_.startswith("-U")] +
+                                ["-I" + os.path.join(REPO, "include"), src, "-o", obj], capture_output=True, text=True)
+            if r_.returncode != 0: continue
+            dis = subprocess.run(["objdump", "-d", "--no-show-raw-insn", obj], capture_output=True, text=True).stdout
+            for ln in dis.split("\n"):
+                if re.search(r"\b(bswap|movbe)\b|\brol[wl]?\s+\$(0x)?8\b|call.*<(Avtp_Bswap\d+|ntoh[ls]|hton[ls]|be\d\dtoh|htobe\d\d|__bswap\w*)>", ln):
+                    found.append("%s: %s" % (os.path.basename(src), " ".join(ln.split()[1:])[:60])); break
+        return found
+    acc_style = "walk"
+    vv = scratch()
+    shape_sweep(vv, wd, ex_x, "C14", rnd, q, "crossed", "LE", "BE")
+    for r_ in vv.cov["tlc_runs"]: v.cov["tlc_runs"].append(r_)
+    v.cov["states"] += vv.cov["states"]; v.cov["transitions"] += vv.cov["transitions"]; v.cov["evaluations"] += vv.cov["evaluations"]
+    v.cov["replayed_transitions"] = v.cov.get("replayed_transitions", 0) + vv.cov.get("replayed_transitions", 0)
+    if vv.violations:
+        vb = scratch()
+        hostx.raw_replay(vb, ex_x, nat, rnd, "crossed (helper-free accessors)")
+        sw = swaps_in_be_build()
+        if not vb.violations and not sw: acc_style = "bits"
+        else:
+            if sw: v.cov["swaps_in_big_endian_build"] = sw
+            merge(vv)
+    v.cov["accessor_style_in_crossed_build"] = acc_style
     # (2b) host independence is agreement of BOTH builds with the one specification: the native build on the array encodings
     #      (also with the samples converted in place), the crossed build below
     resn = run_tlc("GenVss", vss.cfg("encode", [0], [130, 131, 132, 133, 134, 135, 137, 138], 1), wd, timeout=1800)
@@ -776,12 +812,13 @@ def c14(v, tier, seed):
     sub = [x for x in resn.emitted if len(x["pre"]) <= 700]
     v.cov["evaluations"] += vss.replay(v, ex_n, sub, rnd, places=[("E", 0)], tag="[native] ")["executed"]
     groups = [ALL_VIEWS[i::3] for i in range(3)] if q else [[x] for x in ALL_VIEWS]
-    for scn in ("fields", "init", "can", "vss", "strarr"):
-        for gi, g in enumerate(groups if scn in ("fields", "init") else [ALL_VIEWS[:1]]):
-            res = run_tlc("GenX", hostx.x_cfg(scn, g, "LE", "BE", bigcounts=(64, 300) if q else (64, 300, 512, 1024)), wd, timeout=3600)
-            v.add_tlc("GenX/%s[%d]" % (scn, gi), res)
-            if not res.ok: raise Infra("HostModel violates HostIndependence (%s):\n%s" % (scn, (res.violation or "")[-1500:]))
-            vecs = res.emitted
+    codec_style = ["helpers"]
+    def crossed_scn(vt, scn, gi, g, codec):
+        res = run_tlc("GenX", hostx.x_cfg(scn, g, "LE", "BE", bigcounts=(64, 300) if q else (64, 300, 512, 1024), acc=acc_style, codec=codec), wd, timeout=3600)
+        v.add_tlc("GenX/%s[%d]%s" % (scn, gi, "" if (acc_style, codec) == ("walk", "helpers") else " (%s, %s)" % (acc_style, codec)), res)
+        if not res.ok: raise Infra("HostModel violates HostIndependence (%s):\n%s" % (scn, (res.violation or "")[-1500:]))
+        return crossed_replay(vt, scn, res.emitted)
+    def crossed_replay(v, scn, vecs):
             for x in vecs:
                 x.setdefault("path", "generic"); x.setdefault("id", ""); x.setdefault("rc", 0); x.setdefault("out", [165, 90] * 4)
                 if isinstance(x.get("ret"), list) and scn == "vss": x["ret"] = from64(x["ret"])
@@ -798,13 +835,29 @@ def c14(v, tier, seed):
                 st = vss.sa_replay(v, ex_x, vecs, tag="crossed ")
             else:
                 st = vss.replay(v, ex_x, vecs, rnd)
-            v.cov["evaluations"] += st["executed"]; v.cov["replayed_transitions"] += len(vecs)
+            v.cov["evaluations"] += st["executed"]; v.cov["replayed_transitions"] = v.cov.get("replayed_transitions", 0) + len(vecs)
             if vecs: v.sample({"crossed_transition": {k: (vecs[0][k] if len(str(vecs[0][k])) < 200 else "...") for k in vecs[0]}})
+    for scn in ("fields", "init", "can", "vss", "strarr"):
+        for gi, g in enumerate(groups if scn in ("fields", "init") else [ALL_VIEWS[:1]]):
+            vt = scratch()
+            crossed_scn(vt, scn, gi, g, codec_style[0])
+            if vt.violations and scn in ("vss", "strarr") and codec_style[0] == "helpers":
+                # the codec may store its units byte by byte in wire order instead of converting host objects: try that style
+                vb = scratch()
+                crossed_scn(vb, scn, gi, g, "bytes")
+                if not vb.violations and not swaps_in_be_build(): codec_style[0] = "bytes"; vt = vb
+            merge(vt)
+            v.cov["evaluations"] += vt.cov["evaluations"]; v.cov["replayed_transitions"] = v.cov.get("replayed_transitions", 0) + vt.cov.get("replayed_transitions", 0)
+            for s_ in vt.cov["samples"][:1]: v.sample(s_)
+    v.cov["codec_style_in_crossed_build"] = codec_style[0]
     v.cov["rule"] = ("model: T7 (quadlet walk = bit semantics on both hosts) over every descriptor shape, HostIndependence for named fields, initialisers, CAN builders "
                      "and the VSS codec; binding: native build replay of the shape sweep and crossed build (forced big-endian helper set on little-endian memory) replay "
                      "of shapes, every named field x 2 paths, initialisers, CAN builds and VSS put/get, compared with the model's prediction for (host=LE, branch=BE)")
     v.cov["distinct_nontrivial"] = v.cov.get("replayed_transitions", 0)
     v.assumptions.append("no big-endian execution platform exists in the sandbox: big-endian memory is modelled (Store/Load), the big-endian helper set is executed on little-endian memory")
+    v.assumptions.append("a crossed build is predictable only under a model of how the code reaches multi-byte values: two styles are enumerated (through the byte-order helpers / byte by byte); "
+                         "the byte-by-byte style is accepted only if the library compiled for a big-endian host (-O0) contains no byte-swap primitive (code that swaps "
+                         "unconditionally looks like that style on little-endian memory)")
 
 
 def c15_vectors(v, wd, q):
